@@ -154,7 +154,8 @@ def check(c):
     texts += [('ramp', t) for t in ramps()]
     texts += extremes(r)
     texts += [('custom', t) for t in CUSTOM_TOKENS]
-    for d_ in ['d2', 'd3', 'd6', 'd10', 'd20', '2d6', 'd6 + 1', 'd4 * d4', 'd6 - d6', 'd6 kg', '(d6 + d6) / 2', '7 - d6']:
+    for d_ in ['d2', 'd3', 'd6', 'd10', 'd20', '2d6', 'd6 + 1', 'd4 * d4', 'd6 - d6', 'd6 kg', '(d6 + d6) / 2', '7 - d6',
+               'd6 i', 'd20 + (d2 - 1) i', '(d3 - 2) i + d12 + d12']:   # non-real outcomes (sort order of the listing)
         for f_ in ['roll %s', 'roll(%s)', 'sample %s', 'mean(%s)', '%s', 'roll(%s) + roll(%s)']:
             texts.append(('dice', f_.replace('%s', d_)))
     for _ in range(300 if quick else 5000):
